@@ -325,6 +325,29 @@ def r12_3(ctx):
         # both appends in the same block, after the step
         blocks = {id(parent(parent(c))) for c in ast.walk(loop[0]) if isinstance(c, ast.Call) and src(c.func) in ('times.append', 'solutions.append')}
         ctx.decide('R12.3', fi.qual, 'time and state appended in the same block', len(blocks) == 1, loop[0])
+        # no exit between the two appends: a step that fails (partial results are returned) must not have recorded its time
+        def holder(c):
+            st = c
+            while st is not None and not (isinstance(st, ast.stmt) and parent(st) is not None and any(
+                    st in (getattr(parent(st), fld, None) or []) for fld in ('body', 'orelse', 'finalbody'))):
+                st = parent(st)
+            return st
+        ta = [holder(c) for c in ast.walk(loop[0]) if isinstance(c, ast.Call) and src(c.func) == 'times.append']
+        sa_ = [holder(c) for c in ast.walk(loop[0]) if isinstance(c, ast.Call) and src(c.func) == 'solutions.append']
+        if len(ta) == 1 and len(sa_) == 1 and parent(ta[0]) is parent(sa_[0]):
+            blk = None
+            for fld in ('body', 'orelse', 'finalbody'):
+                b = getattr(parent(ta[0]), fld, None)
+                if isinstance(b, list) and ta[0] in b and sa_[0] in b:
+                    blk = b
+            if blk is not None:
+                i, j = sorted((blk.index(ta[0]), blk.index(sa_[0])))
+                between = blk[i + 1:j]
+                exits = [x for st in between for x in ast.walk(st) if isinstance(x, (ast.Return, ast.Raise, ast.Break, ast.Continue))]
+                ctx.decide('R12.3', fi.qual, 'no exit between times.append and solutions.append', not exits, exits[0] if exits else blk[i],
+                           'times and states stay paired on every exit' if not exits else
+                           'the function can leave (`%s`) after one of the two lists was extended and before the other: the partial result has '
+                           'one more time than states (or vice versa)' % src(exits[0])[:50], definite=True)
     init = (src(d['times'].value) if 'times' in d else '', src(d['solutions'].value) if 'solutions' in d else '')
     ctx.decide('R12.3', fi.qual, 'times = %s ; solutions = %s' % init, init == ('[t0]', '[x]'), fn, 'initial state recorded at t0')
 
